@@ -377,7 +377,7 @@ theorem nodeMatch_refl (a : NOp) : nodeMatch a a = true := by
   | gate o => cases o <;> simp [nodeMatch]
 
 theorem edgeMatch_refl (es : List Edge) : edgeMatch es es = true := by
-  cases es <;> simp [edgeMatch]
+  simp [edgeMatch]
 
 def idMapOf (g : MG) : List (Nd × Nd) := g.nodes.map fun p => (p.1, p.1)
 
@@ -716,7 +716,10 @@ theorem nodeMatch_symm (a b : NOp) : nodeMatch a b = nodeMatch b a := by
         (apply Bool.eq_iff_iff.2; simp only [Bool.and_eq_true, beq_iff_eq]; constructor <;> (intro h; exact ⟨h.1.symm, h.2.symm⟩))
 
 theorem edgeMatch_symm (a b : List Edge) : edgeMatch a b = edgeMatch b a := by
-  cases a <;> cases b <;> simp only [edgeMatch] <;> (apply Bool.eq_iff_iff.2; simp only [beq_iff_eq]; exact eq_comm)
+  unfold edgeMatch
+  congr 1
+  funext k
+  exact Bool.eq_iff_iff.2 (by simp only [beq_iff_eq]; exact eq_comm)
 
 /-- the node function of an association list -/
 def mapFn (f : List (Nd × Nd)) (n : Nd) : Nd := (applyMap f n).getD n
